@@ -36,6 +36,7 @@ import (
 	"reflect"
 	"sort"
 	"strings"
+	"sync"
 	"time"
 
 	"github.com/insomniacslk/dhcp/dhcpv4"
@@ -51,8 +52,6 @@ func V4(p *dhcpv4.DHCPv4) string {
 		return "<nil>\n"
 	}
 	w.line("ToBytes()", call(func() string { return hex.EncodeToString(p.ToBytes()) }))
-	w.line("Summary()", call(func() string { return fmt.Sprintf("%q", p.Summary()) }))
-	w.line("String()", call(func() string { return fmt.Sprintf("%q", p.String()) }))
 	w.walk("", reflect.ValueOf(p).Elem(), true, 0)
 	for _, def := range []time.Duration{0, 7 * time.Second} {
 		def := def
@@ -83,8 +82,6 @@ func V6(d dhcpv6.DHCPv6) string {
 		return "<nil>\n"
 	}
 	w.line("ToBytes()", call(func() string { return hex.EncodeToString(d.ToBytes()) }))
-	w.line("Summary()", call(func() string { return fmt.Sprintf("%q", d.Summary()) }))
-	w.line("String()", call(func() string { return fmt.Sprintf("%q", d.String()) }))
 	w.line("LongString(2)", call(func() string { return fmt.Sprintf("%q", d.LongString(2)) }))
 	w.walk("", reflect.ValueOf(d), true, 0)
 	// accessors with an argument: every code present at this level
@@ -171,7 +168,7 @@ func Diff(a, b string) (path, av, bv string, n int) {
 			y = "<absent>"
 		}
 		// most specific = deepest path; ties: first in snapshot order
-		d := strings.Count(k, ".") + strings.Count(k, "[")
+		d := 1000*strings.Count(k, "](") + strings.Count(k, ".") + strings.Count(k, "[")
 		if d > best {
 			best, path, av, bv = d, k, x, y
 		}
@@ -183,28 +180,43 @@ func Diff(a, b string) (path, av, bv string, n int) {
 }
 
 // Observer extracts a stable name for fingerprints from a Diff path: the Go type
-// of the innermost annotated value on the path ("dhcpv6.optDomainSearchList"),
-// or, when the path holds no annotation, its first segment ("DomainSearch()").
+// of the innermost *list element* on the path — options are always elements of
+// an option list, so for
+// "….Options[4](*dhcpv6.optDomainSearchList).DomainSearchList(*rfc1035label.Labels).ToBytes()"
+// it is "dhcpv6.optDomainSearchList" — or, when the path holds no such element,
+// its first segment ("DomainSearch()", "ClientHWAddr").
 func Observer(path string) string {
 	last := ""
-	for i := 0; i < len(path); i++ {
-		if path[i] != '(' {
+	for i := 0; i+1 < len(path); i++ {
+		if path[i] != ']' || path[i+1] != '(' {
 			continue
 		}
-		j := strings.IndexByte(path[i:], ')')
+		j := strings.IndexByte(path[i+1:], ')')
 		if j < 0 {
 			break
 		}
-		tok := path[i+1 : i+j]
+		tok := path[i+2 : i+1+j]
 		if strings.Contains(tok, ".") && !strings.ContainsAny(tok, " ,") {
 			last = strings.TrimLeft(tok, "*")
 		}
-		i += j
 	}
 	if last != "" {
 		return last
 	}
 	p := strings.TrimPrefix(path, ".")
+	if strings.HasPrefix(p, "(") { // "(*dhcpv6.Message).Field…"
+		if k := strings.IndexByte(p, ')'); k > 0 {
+			head := strings.TrimLeft(p[1:k], "*")
+			rest := strings.TrimPrefix(p[k+1:], ".")
+			if m := strings.IndexAny(rest, ".[("); m > 0 {
+				rest = rest[:m]
+			}
+			if rest == "" {
+				return head
+			}
+			return head + "." + rest
+		}
+	}
 	if k := strings.IndexAny(p, ".["); k > 0 {
 		p = p[:k]
 	}
@@ -258,16 +270,20 @@ func isLib(t reflect.Type) bool {
 
 var skipPrefixes = []string{"Set", "Add", "Update", "Del", "From", "Unmarshal", "Marshal", "With", "Generate", "Test", "Setup", "TearDown"}
 
-func callable(m reflect.Method, mt reflect.Type) bool {
+func callable(m reflect.Method, mt reflect.Type, hasRecv bool) bool {
 	if m.PkgPath != "" { // unexported
 		return false
+	}
+	recv := 0
+	if hasRecv {
+		recv = 1
 	}
 	for _, p := range skipPrefixes {
 		if strings.HasPrefix(m.Name, p) {
 			return false
 		}
 	}
-	return mt.NumIn() == 0 && mt.NumOut() >= 1 && !mt.IsVariadic()
+	return mt.NumIn() == recv && mt.NumOut() >= 1 && !mt.IsVariadic()
 }
 
 // methods calls every zero-argument method with results of v (pointer receiver
@@ -284,27 +300,68 @@ func (w *walker) methods(path string, v reflect.Value) {
 	if !rv.CanInterface() {
 		return
 	}
-	rt := rv.Type()
-	for i := 0; i < rt.NumMethod(); i++ {
-		m := rt.Method(i)
-		mv := rv.Method(i)
-		if !callable(m, mv.Type()) {
-			continue
-		}
+	for _, mi := range callableMethods(rv.Type()) {
+		mv := rv.Method(mi.idx)
 		var outs []reflect.Value
 		if pv := safely(func() { outs = mv.Call(nil) }); pv != "" {
-			w.line(path+"."+m.Name+"()", pv)
+			w.line(path+"."+mi.name+"()", pv)
+			continue
+		}
+		if len(outs) == 1 {
+			w.line(path+"."+mi.name+"()", compact(outs[0]))
 			continue
 		}
 		parts := make([]string, 0, len(outs))
 		for _, o := range outs {
 			parts = append(parts, compact(o))
 		}
-		w.line(path+"."+m.Name+"()", strings.Join(parts, " , "))
+		w.line(path+"."+mi.name+"()", strings.Join(parts, " , "))
 	}
 }
 
-const maxDepth = 40
+type methodInfo struct {
+	idx  int
+	name string
+}
+
+var methodCache sync.Map // reflect.Type -> []methodInfo
+
+func callableMethods(rt reflect.Type) []methodInfo {
+	if v, ok := methodCache.Load(rt); ok {
+		return v.([]methodInfo)
+	}
+	var l []methodInfo
+	for i := 0; i < rt.NumMethod(); i++ {
+		m := rt.Method(i)
+		if callable(m, m.Type, rt.Kind() != reflect.Interface) {
+			l = append(l, methodInfo{i, m.Name})
+		}
+	}
+	methodCache.Store(rt, l)
+	return l
+}
+
+var printCache sync.Map // reflect.Type -> []methodInfo (ToBytes, String with the right signature)
+
+func printMethods(rt reflect.Type) []methodInfo {
+	if v, ok := printCache.Load(rt); ok {
+		return v.([]methodInfo)
+	}
+	var l []methodInfo
+	recv := 1
+	if rt.Kind() == reflect.Interface {
+		recv = 0
+	}
+	for _, name := range []string{"ToBytes", "String"} {
+		if m, ok := rt.MethodByName(name); ok && m.PkgPath == "" && m.Type.NumIn() == recv && m.Type.NumOut() == 1 {
+			l = append(l, methodInfo{m.Index, name})
+		}
+	}
+	printCache.Store(rt, l)
+	return l
+}
+
+const maxDepth = 400
 
 // walk emits lines for v. full: call the methods of library-typed values.
 func (w *walker) walk(path string, v reflect.Value, full bool, depth int) {
@@ -552,11 +609,9 @@ func compactStruct(sb *strings.Builder, v, rv reflect.Value, depth int) {
 		first = false
 	}
 	if isLib(t) && rv.CanInterface() {
-		for _, name := range []string{"ToBytes", "String"} {
-			m := rv.MethodByName(name)
-			if !m.IsValid() || m.Type().NumIn() != 0 || m.Type().NumOut() != 1 {
-				continue
-			}
+		for _, mi := range printMethods(rv.Type()) {
+			name := mi.name
+			m := rv.Method(mi.idx)
 			var out []reflect.Value
 			sep()
 			if pv := safely(func() { out = m.Call(nil) }); pv != "" {
